@@ -507,15 +507,20 @@ def main():
     # entry add / remove, single and multi-step on one handle
     w("pub fn entry_steps(w: &mut Wd, id: entity::Identifier, steps: &[(bool, u8, u64)], rec: &mut Vec<Option<(u64, u64)>>) -> bool {")
     w("    let Some(mut e) = w.entry(id) else { return false };")
+    w("    // A caller may catch a panic coming out of one call and go on using the same handle: the")
+    w("    // remaining steps run on it, then the first panic is passed on.")
+    w("    let mut pending: Option<Box<dyn std::any::Any + Send>> = None;")
     w("    for (add, comp, val) in steps.iter().copied() {")
-    w("        match (add, comp) {")
+    w("        let r = std::panic::catch_unwind(std::panic::AssertUnwindSafe(|| match (add, comp) {")
     for c in comps:
         ix = COMP_IX[c]
         w(f"            (true, {ix}) => {{ let c = <{c} as Tracked>::make(val); rec.push(Some((c.serial(), c.val()))); e.add(c); }}")
         w(f"            (false, {ix}) => {{ rec.push(None); e.remove::<{c}, _>(); }}")
     w("            _ => unreachable!(),")
-    w("        }")
+    w("        }));")
+    w("        if let Err(p) = r { if pending.is_none() { pending = Some(p); } }")
     w("    }")
+    w("    if let Some(p) = pending { std::panic::resume_unwind(p); }")
     w("    true")
     w("}")
     w("")
